@@ -11,7 +11,7 @@ import tempfile
 MODULES = ["error", "format", "token", "term", "de_bruijn", "evaluator", "parser"]
 TARGET_OF = {"step_strict": "step", "evaluate": "step"}
 KNOWN = {"signed_shift", "unsigned_shift", "open", "free_variables", "is_value", "step",
-         "reassociate_applications", "reassociate_products_and_quotients", "reassociate_sums_and_differences", "packrat_complete"}
+         "reassociate_applications", "reassociate_products_and_quotients", "reassociate_sums_and_differences", "packrat_complete", "resolve"}
 PACKRAT_COUNT = 25000   # each case runs an exhaustive derivation search over grammar.y: about 1 ms
 
 
@@ -53,9 +53,12 @@ def search(prop, failed, repo, verif, seed=1, count=300000):
     targets = []
     for f in failed:
         t = TARGET_OF.get(f.get("function"), f.get("function"))
-        if f.get("name", "").startswith("packrat/"):
-            # any obligation of the recogniser unit: real parse_term / parse() vs the derivations of grammar.y
+        if f.get("name", "").startswith("packrat/") or (f.get("name", "").startswith("pipeline/") and prop == "C07"):
+            # any obligation of the recogniser unit (or of the parse() glue): real parse_term / parse() vs the derivations of grammar.y
             t = "packrat_complete"
+        if f.get("name", "").startswith("resolve/"):
+            # any obligation of the resolution unit: real resolve_variables vs the transcription of resolve / scoped
+            t = "resolve"
         if t in KNOWN and t not in targets:
             targets.append(t)
     if not targets:
@@ -70,7 +73,7 @@ def search(prop, failed, repo, verif, seed=1, count=300000):
             "summary": f"{out['input']}  ->  real code: {out['real']}   reference semantics: {out['reference']}",
             "target": out["target"], "seed": seed, "count": count,
             "input": out["input"], "real": out["real"], "reference": out["reference"],
-            "method": "bounded random differential test of the real function (copied from /repo's working tree) against witness/src/reference.rs (packrat unit: random sentences of grammar.y and near misses, real parse_term / parse() against an exhaustive derivation search over /repo/grammar.y, witness/src/grammar.rs); auxiliary, never decides",
+            "method": "bounded random differential test of the real function (copied from /repo's working tree) against witness/src/reference.rs (resolve unit: random named trees with names a, b, c, _ and random initial contexts; packrat unit: random sentences of grammar.y and near misses, real parse_term / parse() against an exhaustive derivation search over /repo/grammar.y, witness/src/grammar.rs); auxiliary, never decides",
         }
     finally:
         shutil.rmtree(scratch, ignore_errors=True)
@@ -96,6 +99,8 @@ def sanity(repo, verif, targets, seed=1, count=100000):
     try:
         binary = build(repo, verif, scratch)
         todo = list(targets) + ["bigint_contract"]
+        if "resolve_variables" in targets:
+            todo.append("resolve")
         if any(t.startswith("parse_") for t in targets):
             # recogniser unit: soundness/tree AND (not covered by any contract) completeness, on random sentences + near misses
             todo.append("packrat_complete")
